@@ -680,7 +680,37 @@ func (s *scope) createInstance(descriptor *Descriptor) (any, error) {
 	if err := s.setInstance(descriptor, key, instance); err != nil {
 		return nil, err
 	}
+
+	// Registered under several interfaces: the other interfaces resolve to
+	// this very instance (it is tracked for disposal only once, above)
+	for _, alias := range s.rootProvider.aliases[descriptor.registration] {
+		if alias != descriptor {
+			s.cacheInstance(alias, instance)
+		}
+	}
+
 	return instance, nil
+}
+
+// cacheInstance makes instance the cached instance of descriptor in this scope
+// (or in the provider for singletons) without tracking it for disposal.
+func (s *scope) cacheInstance(descriptor *Descriptor, instance any) {
+	key := instanceKey{
+		Type:  descriptor.Type,
+		Key:   descriptor.Key,
+		Group: descriptor.Group,
+	}
+
+	switch descriptor.Lifetime {
+	case Singleton:
+		s.rootProvider.cacheSingleton(key, instance)
+	case Scoped:
+		s.instancesMu.Lock()
+		if s.instances != nil {
+			s.instances[key] = instance
+		}
+		s.instancesMu.Unlock()
+	}
 }
 
 // FromContext retrieves a Scope from the context.
